@@ -2,7 +2,7 @@
 # usage: eval_batch.sh Cxx [checks] [tier] [prefix]  -- evaluates /tmp/wt_Cxx/_mutants/mutant_{1,2,3}.diff as seeds Cxx-<prefix>k
 P="$1"; CH="${2:-$1}"; TIER="${3:-quick}"; PRE="${4:-m}"
 for k in 1 2 3; do
-  D=/tmp/wt_$P/_mutants
+  D=${WTPREFIX:-/tmp/wt_}$P/_mutants
   [ -f $D/mutant_$k.diff ] || continue
   NOTE=$(grep -i -m1 -E "^(#+ *)?(\*\*)?(mutant|change)?[ _]*$k\b" $D/notes.md 2>/dev/null | cut -c1-300)
   python3 /verif/tools/try_mutant.py $P-$PRE$k $P $D/mutant_$k.diff $D/demo_$k.py --checks "$CH" --tier "$TIER" --what "$NOTE" 2>&1 | grep -v "^{"
